@@ -31,6 +31,7 @@ var corpus = []string{
 	// look-alikes that are ordinary messages
 	`[1,2,3]`, `<html`, `<html>`, `| x y > a`, `[ 1 2 ] x`, `   {"leading":"ws"}`, `##++ x`, `#+x`, `# +x`, `#+- x`, `[5us] x`,
 	`<'p',99999999999999999999,1s> x`, `<'p',007,1s> x`, `<'p', 1 , 1s >x`, `< 'p',1,1s> x`, `|+> foo  `, `|+>`, `|r> anything`,
+	"\ufeff# a comment behind a byte order mark", "\ufeff[1s] x", "\ufeff", ` ` + "\ufeff" + `|r>`,
 	`<'',0,0s> x`, `<'[',1,1s> m`, `[1h5.3m0.5s] asdf`, `[1.5.s] x`,
 }
 
@@ -381,8 +382,8 @@ func genText(r *lib.Rng, i int) []Chunk {
 	return rle(sb.String())
 }
 
-var filtPats = []string{`[a-h]`, `[R-Z]`, `[0-9]`, `[#!&%]`, `^\s*{`, `"hb"`, `^foo`, `o$`, `.`, ``, `x|y`, `\d\d`, `^$`, `T`}
-var filtLines = []string{"ah", "ah#", "ah0", "Ah", "Az", "abcd efg", `{"hb":1}`, ` {"t":12}`, "foo", "TUV23", "TUV%", "TUV", "ACH", "tuv", "", "x", "y0", "zzz", "42", "hello"}
+var filtPats = []string{`^\s*$`, `[a-h]`, `[R-Z]`, `[0-9]`, `[#!&%]`, `^\s*{`, `"hb"`, `^foo`, `o$`, `.`, ``, `x|y`, `\d\d`, `^$`, `T`}
+var filtLines = []string{"  ", "\t", "ah", "ah#", "ah0", "Ah", "Az", "abcd efg", `{"hb":1}`, ` {"t":12}`, "foo", "TUV23", "TUV%", "TUV", "ACH", "tuv", "", "x", "y0", "zzz", "42", "hello"}
 
 // patterns whose meaning changes when they are not evaluated on their own: inline flags at the
 // start, top-level alternations, anchors, literals differing only in case; and lines that tell
